@@ -2,6 +2,7 @@ package rules
 
 import (
 	"fmt"
+	"go/token"
 	"go/types"
 	"strings"
 
@@ -29,12 +30,6 @@ func S8SharedState(p *core.Program, a *spec.Anchors, r *core.Report) {
 			nGlobals++
 			key := pk.PkgPath[len(core.ModPath)+1:] + "." + name
 			et := g.Type().(*types.Pointer).Elem()
-			if isRefType(et) {
-				r.Violate("S8.global", key, "shared-reference", p.Pos(g.Pos()),
-					fmt.Sprintf("package-level variable %s of reference type %s: state shared by every goroutine and every call (races under concurrent use, results coupled across calls)", name, et.String()),
-					"two goroutines (or two unrelated tensors) reach the same object through this variable")
-				continue
-			}
 			written := false
 			if g.Referrers() != nil {
 				for _, ref := range *g.Referrers() {
@@ -43,9 +38,11 @@ func S8SharedState(p *core.Program, a *spec.Anchors, r *core.Report) {
 					}
 				}
 			}
-			// stores are not listed as referrers of globals: scan the package
-			for _, fn := range p.ModuleFunctions(pk.PkgPath) {
-				if fn.Name() == "init" {
+			// stores are not listed as referrers of globals: scan the module.  Besides direct stores, any use of
+			// the variable's address other than a plain load (a method call on it - sync/atomic types, mutexes -,
+			// an argument, a field address that is stored through or passed on) can write it.
+			for _, fn := range p.ModuleFunctions() {
+				if fn.Name() == "init" && fn.Parent() == nil {
 					continue
 				}
 				for _, b := range fn.Blocks {
@@ -53,11 +50,27 @@ func S8SharedState(p *core.Program, a *spec.Anchors, r *core.Report) {
 						if st, ok := in.(*ssa.Store); ok && st.Addr == g {
 							written = true
 						}
+						if addrUsedBeyondLoad(in, g, 0) {
+							written = true
+						}
 					}
 				}
 			}
 			if written {
 				r.Violate("S8.global", key, "written-after-init", p.Pos(g.Pos()), "package-level variable written outside package initialisation", "concurrent calls race on it")
+			} else if isRefType(et) {
+				// never reassigned; the object behind it must not be mutated either: sentinel errors and tables that
+				// are only read (lookup, index, range, len) are immutable in effect
+				switch {
+				case types.Identical(et, types.Universe.Lookup("error").Type()):
+					r.Pass("S8.global", key, "", p.Pos(g.Pos()), "sentinel error, never reassigned")
+				case globalOnlyRead(p, g):
+					r.Pass("S8.global", key, "", p.Pos(g.Pos()), "reference-typed but only read (lookup / index / range / len) after initialisation")
+				default:
+					r.Violate("S8.global", key, "shared-reference", p.Pos(g.Pos()),
+						fmt.Sprintf("package-level variable %s of reference type %s whose object is handed on or written through after initialisation: state shared by every goroutine and every call (races under concurrent use, results coupled across calls)", name, et.String()),
+						"two goroutines (or two unrelated tensors) reach the same object through this variable")
+				}
 			} else {
 				r.Pass("S8.global", key, "", p.Pos(g.Pos()), "value-typed and never written after initialisation")
 			}
@@ -101,7 +114,7 @@ func S8SharedState(p *core.Program, a *spec.Anchors, r *core.Report) {
 		}
 	}
 	r.Count("S8.distribution_parameter_stores", nLits)
-	r.Min("S8.distribution_parameter_stores", 4)
+	r.Min("S8.distribution_parameter_stores", 1)
 	if nRandCalls == 0 {
 		r.Pass("S8.rng", "module", "", "", fmt.Sprintf("%d distribution parameter stores, no explicit Src, no private generator", nLits))
 	}
@@ -121,4 +134,100 @@ func isRefType(t types.Type) bool {
 		return isRefType(u.Elem())
 	}
 	return false
+}
+
+// addrUsedBeyondLoad: instruction in uses the address v (a package variable or an address derived from it) in
+// a way that may write through it: as call argument/receiver, stored somewhere, captured, or - for derived
+// field/element addresses - any of these recursively.  Plain loads are not such a use.
+func addrUsedBeyondLoad(in ssa.Instruction, v ssa.Value, depth int) bool {
+	if depth > 4 {
+		return true
+	}
+	uses := false
+	for _, op := range in.Operands(nil) {
+		if op != nil && *op == v {
+			uses = true
+		}
+	}
+	if !uses {
+		return false
+	}
+	switch x := in.(type) {
+	case *ssa.UnOp:
+		return false // load
+	case *ssa.Store:
+		return true // (as address: handled by the caller too; as value: the address escapes)
+	case *ssa.FieldAddr, *ssa.IndexAddr:
+		val := x.(ssa.Value)
+		if refs := val.Referrers(); refs != nil {
+			for _, r := range *refs {
+				if _, isStore := r.(*ssa.Store); isStore {
+					return true
+				}
+				if addrUsedBeyondLoad(r, val, depth+1) {
+					return true
+				}
+			}
+		}
+		return false
+	case *ssa.DebugRef:
+		return false
+	}
+	return true
+}
+
+// globalOnlyRead: outside package initialisation every load of g is used only by read operations (map lookup,
+// indexing whose element address is only loaded, range, len/cap, nil comparison, re-slicing used likewise).
+func globalOnlyRead(p *core.Program, g *ssa.Global) bool {
+	var readOnly func(v ssa.Value, depth int) bool
+	readOnly = func(v ssa.Value, depth int) bool {
+		if depth > 5 || v.Referrers() == nil {
+			return false
+		}
+		for _, ref := range *v.Referrers() {
+			switch x := ref.(type) {
+			case *ssa.Lookup:
+				if x.X != v {
+					return false
+				}
+			case *ssa.Index:
+			case *ssa.IndexAddr:
+				for _, r2 := range *x.Referrers() {
+					if u, ok := r2.(*ssa.UnOp); !ok || u.Op != token.MUL {
+						return false
+					}
+				}
+			case *ssa.Range:
+			case *ssa.BinOp:
+			case *ssa.DebugRef:
+			case *ssa.Slice:
+				if !readOnly(x, depth+1) {
+					return false
+				}
+			case *ssa.Call:
+				b, ok := x.Call.Value.(*ssa.Builtin)
+				if !ok || (b.Name() != "len" && b.Name() != "cap") {
+					return false
+				}
+			default:
+				return false
+			}
+		}
+		return true
+	}
+	for _, fn := range p.ModuleFunctions() {
+		if fn.Name() == "init" && fn.Parent() == nil {
+			continue
+		}
+		for _, b := range fn.Blocks {
+			for _, in := range b.Instrs {
+				if u, ok := in.(*ssa.UnOp); ok && u.Op == token.MUL && u.X == g {
+					if !readOnly(u, 0) {
+						return false
+					}
+				}
+			}
+		}
+	}
+	return true
 }
